@@ -1,6 +1,6 @@
 import sys,json
 pid=sys.argv[1]
-base=pid.rstrip('bcde'); p=[json.loads(l) for l in open('/verif/properties.jsonl') if json.loads(l)['id']==base][0]
+base=pid.rstrip('bcdef'); p=[json.loads(l) for l in open('/verif/properties.jsonl') if json.loads(l)['id']==base][0]
 print(f"""You are working in a scratch git worktree of the Go project lightninglabs/neutrino (a Bitcoin light client) at /tmp/wt_{pid}. Work ONLY inside that directory: never read or modify /repo or /verif. The sandbox has no network. Run tests with plain `go` from inside the worktree, e.g. `cd /tmp/wt_{pid} && go test -vet=off -count=1 -timeout 300s ./headerfs/` (do NOT set GOSUMDB, GOTOOLCHAIN or GOFLAGS; always pass -timeout; never use `git stash` - it is shared between worktrees - use `git apply` and `git apply -R` with your patch file). The module /tmp/wt_{pid}/cache is a separate Go module (run its tests from inside /tmp/wt_{pid}/cache). Root-package tests take a few minutes; tests that need a btcd binary skip or fail identically without your change (check against the unmodified tree if in doubt).
 
 Here is a semantic property the project is supposed to satisfy:
